@@ -912,7 +912,10 @@ func (in *Interp) convert(x Value, from, to types.Type) Value {
 		return x
 	}
 	if fok && fb.Kind() == types.UnsafePointer {
-		p := x.(Ptr)
+		p, isPtr := x.(Ptr)
+		if !isPtr {
+			panic(pathAbort{"unsupported: unsafe.Pointer made from an integer (uintptr round trip)"})
+		}
 		if p.c == nil {
 			return p
 		}
